@@ -650,7 +650,19 @@ def run(ctx):
         forms, final = g.gen_block(1, rng.choice([1, 2, 3]))
         pos = rng.randrange(len(forms) + 1)
         val = K(rng.choice(["boom", "bang"]))
-        forms.insert(pos, ["MARK", "err", ["error", val]])
+        raising = rng.choice(["error", "error", "arith", "arith", "index", "length"])
+        if raising == "error":
+            forms.insert(pos, ["MARK", "err", ["error", val]])
+        else:
+            # errors raised by the interpreter itself (slow paths of specialised instructions) on operands held in locals
+            ea, eb = "ea%d" % i, "eb%d" % i
+            rf = {"arith": [rng.choice(["+", "-", "*", "/"]), ea, eb], "index": ["in", eb + "t", 7], "length": ["length", eb]}[raising]
+            forms.insert(pos, ["MARK", "err", rf])
+            forms.insert(pos, ["log", ["+", eb, 1]])          # an ordinary call just before: its position must not be reported instead
+            forms.insert(0, ["def", eb + "t", B(1, 2)])
+            forms.insert(0, ["def", eb, rng.choice([1, 2])])
+            forms.insert(0, ["def", ea, K("not-a-number")])
+            val = None
         padforms = [["def", "pad%d" % q, q] for q in range(k)]
         keep = [["log", ["+"] + ["pad%d" % q for q in range(min(k, 250))]]] if k else []
         body = padforms + forms + keep + [final]
@@ -680,7 +692,7 @@ def run(ctx):
         want_line, want_col = em.marks["err"]
         ctx.count("errpos_cases")
         ctx.nontriv(("errpos", i))
-        if parts[1] != "k" + str(val).encode().hex():
+        if val is not None and parts[1] != "k" + str(val).encode().hex():
             ctx.violation("errpos-wrong-value", "raised value %s, expected %s" % (parts[1], val), files)
         elif (int(parts[2]), int(parts[3])) != (want_line, want_col):
             ctx.violation("errpos-wrong-position:pads%d" % k, "error attributed to line %s column %s, the raising form is at line %d column %d" % (parts[2], parts[3], want_line, want_col), files)
